@@ -10,6 +10,7 @@ against J1 (vacancy jumps between non-zero states with an endpoint in the thermo
 every transition in exactly one class, classes = orbits under the space group and reversal, displacement =
 vacancy displacement, jump type = class of the vacancy jump.
 """
+import os
 import multiprocessing
 import random
 import time
@@ -86,22 +87,35 @@ def record_world(task):
                 calc = OnsagerCalc.VacancyMediated(crys, chem, crys.sitelist(chem), jn, nth)
             else:
                 calc = OnsagerCalc.VacancyMediated(crys, chem, crys.sitelist(chem), jn_in, nth)
-            om1, jt1 = project_network(S, calc.kinetic, calc.om1_jn, calc.om1_jt)
-            om2, jt2 = project_network(S, calc.kinetic, calc.om2_jn, calc.om2_jt)
-            l1, lj1 = calc.omegalist(1)
-            l2, lj2 = calc.omegalist(2)
-            ol1 = [[hs.ps_project(S, a), hs.ps_project(S, b)] for a, b in l1]
-            ol2 = [[hs.ps_project(S, a), hs.ps_project(S, b)] for a, b in l2]
-        except worlds.ProjectionError as ex:
-            errors.append((tag, "projection", str(ex)))
-            continue
         except Exception as ex:      # noqa: BLE001
             errors.append((tag, "raised", "%s: %s" % (type(ex).__name__, ex)))
             continue
-        variants.append({"kind": "calc", "n": nth, "og": True, "om1": om1, "jt1": jt1, "om2": om2, "jt2": jt2,
-                         "ol1": ol1, "ojt1": [int(x) + 1 for x in lj1], "ol2": ol2, "ojt2": [int(x) + 1 for x in lj2]})
-        vmeta.append(tag)
-        maxn = max(maxn, nth + 1)
+        # the same clauses on the calculator as built and on its HDF5 reload (the networks are stored, not regenerated)
+        for mode in ("built", "reloaded"):
+            tag = "calc|Nthermo=%d" % nth if mode == "built" else "calc-reloaded|Nthermo=%d" % nth
+            try:
+                if mode == "reloaded":
+                    import h5py
+                    f5 = h5py.File("vf_c26_%d.h5" % os.getpid(), "w", driver="core", backing_store=False)
+                    calc.addhdf5(f5.create_group("c"))
+                    calc = OnsagerCalc.VacancyMediated.loadhdf5(f5["c"])
+                    f5.close()
+                om1, jt1 = project_network(S, calc.kinetic, calc.om1_jn, calc.om1_jt)
+                om2, jt2 = project_network(S, calc.kinetic, calc.om2_jn, calc.om2_jt)
+                l1, lj1 = calc.omegalist(1)
+                l2, lj2 = calc.omegalist(2)
+                ol1 = [[hs.ps_project(S, a), hs.ps_project(S, b)] for a, b in l1]
+                ol2 = [[hs.ps_project(S, a), hs.ps_project(S, b)] for a, b in l2]
+            except worlds.ProjectionError as ex:
+                errors.append((tag, "projection", str(ex)))
+                continue
+            except Exception as ex:      # noqa: BLE001
+                errors.append((tag, "raised", "%s: %s" % (type(ex).__name__, ex)))
+                continue
+            variants.append({"kind": "calc", "n": nth, "og": True, "om1": om1, "jt1": jt1, "om2": om2, "jt2": jt2,
+                             "ol1": ol1, "ojt1": [int(x) + 1 for x in lj1], "ol2": ol2, "ojt2": [int(x) + 1 for x in lj2]})
+            vmeta.append(tag)
+            maxn = max(maxn, nth + 1)
     case = {"w": S["ow"], "c": chem + 1, "jn": proj, "maxn": maxn, "variants": variants}
     return {"case": case, "vmeta": vmeta, "errors": errors, "base": base, "name": w["name"],
             "info": {"variants": len(variants), "njumps": sum(len(c) for c in proj), "nsites": len(crys.basis[chem]),
